@@ -380,6 +380,9 @@ fn main() {
             let n: u64 = args.get(2).and_then(|s| s.parse().ok()).unwrap_or(400);
             std::process::exit(selftest(n));
         }
+        "calibrate" => {
+            println!("arena_regular_chunk = {}", w_codec::arena_regular_chunk());
+        }
         "plan" => {
             // plan <world> <prop> <seed> <index>: print the generated plan
             let w = world(&args[2]);
